@@ -1,0 +1,90 @@
+//go:build verif
+
+package mongodb
+
+// Contracts for govc (contract-based deductive verification). Comment-only: this file
+// contributes no declarations and is compiled only with -tags verif.
+
+// ---- in-memory MongoDB provider (C12, C04, C08): every allow-listed operation of the mock
+// ---- returns for every argument (nil filters, nil documents, nil updates included) - no index,
+// ---- nil-map, type-assertion or allocation-size panic (strict); the collection table and the
+// ---- documents are touched only under their locks; stored documents are never nil maps and what
+// ---- a reader receives is a copy made under the lock.
+//@ monitor MockHandler.mu guards collections, nextID invariant self.collections != nil && forall(k, string, has(self.collections, k) ==> self.collections[k] != nil && self.collections[k].mock == self)
+//@ monitor MockCollectionHandler.mu guards docs invariant forall(i, 0, len(self.docs), self.docs[i] != nil)
+
+//@ func NewMockHandler
+//@   strict
+//@   ensures result != nil && fresh(result) && result.collections != nil
+//@ func (*MockHandler).Close
+//@   strict
+//@ func (*MockHandler).Ping
+//@   strict
+//@ func (*MockHandler).Collection
+//@   strict
+//@   requires m != nil
+//@   ensures result != nil && result.mock == m
+//@ func matchesFilter
+//@   strict
+//@   modifies nothing
+//@ func copyDoc
+//@   strict
+//@   modifies nothing
+//@   ensures result != nil && fresh(result)
+//@ func (*MockCollectionHandler).FindOne
+//@   strict
+//@   requires c != nil
+//@   ensures result == nil || fresh(result)
+//@   loop 1 invariant held(addr(c.mu)) && 0 <= rangeidx
+//@ func (*MockCollectionHandler).Find
+//@   strict
+//@   requires c != nil
+//@   ensures forall(i, 0, len(result), fresh(result[i]))
+//@   loop 1 invariant held(addr(c.mu)) && 0 <= rangeidx && fresh(base(results)) && forall(i, 0, len(results), fresh(results[i]))
+//@ func (*MockCollectionHandler).InsertOne
+//@   strict
+//@   requires c != nil && c.mock != nil
+//@ func (*MockCollectionHandler).InsertMany
+//@   strict
+//@   requires c != nil && c.mock != nil
+//@   loop 1 invariant 0 <= rangeidx && len(ids) == len(docs) && c.mock != nil
+//@ func (*MockCollectionHandler).UpdateOne
+//@   strict
+//@   requires c != nil
+//@   loop 1 invariant heldw(addr(c.mu)) && 0 <= rangeidx && forall(i, 0, len(c.docs), c.docs[i] != nil)
+//@   loop 2 invariant heldw(addr(c.mu)) && doc != nil && forall(i, 0, len(c.docs), c.docs[i] != nil)
+//@ func (*MockCollectionHandler).UpdateMany
+//@   strict
+//@   requires c != nil
+//@   loop 1 invariant heldw(addr(c.mu)) && 0 <= rangeidx && forall(i, 0, len(c.docs), c.docs[i] != nil)
+//@   loop 2 invariant heldw(addr(c.mu)) && doc != nil && forall(i, 0, len(c.docs), c.docs[i] != nil)
+//@ func (*MockCollectionHandler).DeleteOne
+//@   strict
+//@   requires c != nil
+//@   loop 1 invariant heldw(addr(c.mu)) && 0 <= rangeidx && forall(i, 0, len(c.docs), c.docs[i] != nil)
+//@ func (*MockCollectionHandler).DeleteMany
+//@   strict
+//@   requires c != nil
+//@   loop 1 invariant heldw(addr(c.mu)) && 0 <= rangeidx && forall(i, 0, len(remaining), remaining[i] != nil) && forall(i, 0, len(c.docs), c.docs[i] != nil)
+//@ func (*MockCollectionHandler).CountDocuments
+//@   strict
+//@   requires c != nil
+//@   loop 1 invariant held(addr(c.mu)) && 0 <= rangeidx
+//@ func (*MockCollectionHandler).Aggregate
+//@   strict
+//@   requires c != nil
+//@   ensures forall(i, 0, len(result), fresh(result[i]))
+//@   loop 1 invariant held(addr(c.mu)) && 0 <= rangeidx && len(results) == len(c.docs) && fresh(base(results)) && forall(i, 0, rangeidx, fresh(results[i]))
+//@ func (*MockCollectionHandler).CreateIndex
+//@   strict
+//@ func (*MockCollectionHandler).DropIndex
+//@   strict
+
+// ---- real MongoDB provider: the two argument helpers in front of the driver
+//@ func validateFilter
+//@   strict
+//@   modifies nothing
+//@ func toBsonDoc
+//@   strict
+//@   modifies nothing
+//@   ensures result != nil
